@@ -168,8 +168,8 @@ impl<'a> Sim<'a> {
                     self.server_ticks += 1;
                     self.last_clock = clock_after.unwrap_or(self.last_clock);
                     self.attempts.push(self.last_clock);
-                    self.ctx.bump("f13_tick_response_lost");
-                    self.ctx.add("f13_trades_the_broker_could_not_learn_of", trades.len() as u64);
+                    self.ctx.bump("f10_tick_response_lost");
+                    self.ctx.add("f10_trades_the_broker_could_not_learn_of", trades.len() as u64);
                     ev!(self.ctx, "fault: the server ticked ({} trades), the tick response was lost", trades.len());
                     self.push_valuation();
                 }
@@ -187,13 +187,13 @@ impl<'a> Sim<'a> {
                     match *what {
                         "insert_order" => self.ctx.bump("f10_insert_order_request_lost"),
                         "tick" => {
-                            self.ctx.bump("f12_tick_request_lost");
+                            self.ctx.bump("f10_tick_request_lost");
                             self.lost_tick_requests += 1;
                             self.attempts.push(self.last_clock);
                             self.push_valuation();
                         }
                         _ => {
-                            self.ctx.bump("f13_quote_response_lost");
+                            self.ctx.bump("f10_quote_response_lost");
                             if let Some(ts) = pending.take() {
                                 self.book(&ts);
                                 self.push_valuation();
